@@ -5,5 +5,6 @@ CONSTANTS
   Frames = {"G", "H", "SP"}
   Lists = {"default"}
   ExtraTokens = {}
+  Pres = {"none"}
 INVARIANT DesignHolds
 CHECK_DEADLOCK FALSE
